@@ -19,6 +19,7 @@ from pathlib import Path
 from .core import AnalysisError
 from .core import Ctx
 from .core import DEFAULT_REPO
+from .core import flat_stack
 from .core import split_known
 from .core import VERIF
 from .core import write_evidence
@@ -34,7 +35,7 @@ def run_check(pid: str, repo: Path, tier: str, overrides=None, quiet=True) -> Ct
     mod = load_prop(pid)
     model = Model(repo, overrides)
     ctx = Ctx(pid, model, tier, quiet)
-    mod.check(ctx)
+    flat_stack(mod.check, ctx)
     return ctx
 
 
